@@ -105,7 +105,7 @@ func (r *run) order(nodes []graph.Node) {
 func (r *run) fail(class, detail, format string, a ...interface{}) {
 	if r.res.Viol == nil {
 		r.res.Viol = &core.Violation{Class: class, Detail: detail, Msg: fmt.Sprintf(format, a...)}
-		r.log.Event("VIOLATION " + class + ": " + r.res.Viol.Msg)
+		r.log.Violation(class, r.res.Viol.Msg)
 	}
 }
 
